@@ -162,3 +162,6 @@ func vTier() int {
 	}
 	return 0
 }
+
+// vOverride is a no-op natively: replays always run the real callee.
+func vOverride(name string, fn interface{}) {}
